@@ -161,6 +161,22 @@ func (its *WiredDatatype) checkOptionAndError(ppp *model.PushPullPack) errors.Or
 }
 
 func (its *WiredDatatype) excludeDuplicatedOperations(ppp *model.PushPullPack) {
+	if !ppp.GetPushPullPackOption().HasSubscribeBit() {
+		// When the response of an earlier exchange was lost, the pulled range contains this client's own
+		// operations, which the server stored then. They are applied here already, and they stand wherever
+		// the log put them among the others, not necessarily first: drop them by identity, not by count.
+		var others []*model.Operation
+		for _, op := range ppp.Operations {
+			if op.ID.CUID != its.GetCUID() {
+				others = append(others, op)
+			}
+		}
+		if len(others) != len(ppp.Operations) {
+			its.L().Infof("skip %d own operations", len(ppp.Operations)-len(others))
+			ppp.Operations = others
+			return
+		}
+	}
 	pulled := its.calculatePullingOperations(ppp.CheckPoint)
 	if len(ppp.Operations) > pulled {
 		// for example, if len(ppp.Operations) == 5: o_1 o_2 o_3 o_4 o_5 are received, and
